@@ -42,7 +42,14 @@ DEFAULTS = dict(search="CBO", sm="ET", acq="UCBd", mps="cl_max", design="random"
                 # update_prior = CBO(update_prior=True): candidates sampled from a KDE of the good region; objs = the SAME option
                 # objects (surrogate_model_kwargs dict, scheduler dict, run_function_kwargs, the problem) are handed to every
                 # search of the process; inproc="history": an earlier search with ANOTHER seed built from them runs first
-                update_prior=False, objs=False)
+                update_prior=False, objs=False,
+                # warm = rows of a checkpoint handed to CBO.fit_surrogate before the first ask (a LONG history: library code
+                # such as scikit-learn's QuantileTransformer starts to subsample - with a generator of its own - past a size
+                # threshold); scaler = CBO(objective_scaler=...); pre = which searches ran EARLIER in the interpreter for
+                # inproc="history" (same = the same options with another seed; all = + every class / initial design)
+                warm=0, scaler="auto", pre="same",
+                # n_jobs = CBO(n_jobs=...): -1 = "as many as the process sees", which differs between the two interpreters
+                n_jobs=1)
 N_INIT = 4
 OPTION_KEYS = list(DEFAULTS)
 
@@ -51,6 +58,9 @@ ACQ = ["UCB", "EI", "PI", "MES", "gp_hedge", "UCBd", "EId", "PId", "MESd", "gp_h
 MPS = ["cl_min", "cl_mean", "cl_max", "topk", "boltzmann", "qUCB", "qUCBd"]
 DESIGN = ["random", "sobol", "halton", "hammersly", "lhs", "grid"]
 MOO = ["Linear", "Chebyshev", "AugChebyshev", "PBI", "Quadratic"]
+SCALER = ["auto", "identity", "minmax", "log", "quantile-uniform"]
+WARM = 1200          # longer than every subsampling threshold a change could plausibly introduce below scikit-learn's own
+WARM_LONG = 12000    # longer than scikit-learn's default QuantileTransformer(subsample=10_000)  (thorough tier)
 SCRIPTS = [[2, 2, 2, 1, 2], [1, 1, 1, 1, 1, 1, 1], [3, 1, 3, 1], [4, 3, 2], [2, 2, 1, 1, 1, 3]]
 # small all-discrete space (24 points): more evaluations than half the space, so that the candidate sets contain
 # duplicates and already-sampled points at every step
@@ -98,11 +108,39 @@ def full(cfg):
     c = dict(DEFAULTS)
     c.update(cfg)
     c.setdefault("batches", SMALL_SCRIPTS[0] if c["space"] == "small" else SCRIPTS[0])
+    if c["inproc"] == "interleaved":
+        # alternating ask/tell rounds only exist in the ask/tell mode (and the reference run alone in a fresh interpreter must make
+        # the same calls): `search(max_evals)` of several objects cannot be interleaved
+        c["mode"] = "asktell"
     return c
 
 
+def history_class(cfg):
+    return "none" if not cfg.get("warm") else "long" if cfg["warm"] <= 10000 else "very-long"
+
+
 def lean_cfg(cfg):
-    return {k: cfg[k] for k in OPTION_KEYS}
+    """the options as the table's conditions see them (+ derived: history = none | long | very-long (> 10 000 told observations))"""
+    return dict({k: cfg[k] for k in OPTION_KEYS}, history=history_class(cfg))
+
+
+def with_known_rows(pred, cfg):
+    """rows of the table that a rule named `*-known-finding` keeps out of the obligation (an OPEN known finding of the unchanged tree,
+    recorded in known_findings.d/C07.json) still describe the code: for the configurations that satisfy the rule's conditions they
+    are hidden-input sites like any other, so that the prediction compared with the processes (and the fingerprint) names them"""
+    sc = _SCAN
+    if sc is None:
+        return pred
+    lc = {k: rng_scan._optval(v) for k, v in lean_cfg(cfg).items()}
+    rows = [dict(id=i, file=s.file, line=s.line, func=s.func, kind=s.kind, text=s.text, stream=s.stream, why=s.why)
+            for i, s in enumerate(sc.sites)
+            if s.rule.endswith("known-finding") and not s.seeded and all(lc.get(k) in [rng_scan._optval(v) for v in vals] for k, vals in s.conds)]
+    if not rows:
+        return pred
+    pred = dict(pred)
+    pred["hidden"] = list(pred["hidden"]) + rows
+    pred["streams"] = list(dict.fromkeys(list(pred["streams"]) + [r["stream"] for r in rows]))
+    return pred
 
 
 def nondefault(cfg):
@@ -118,7 +156,15 @@ def spine(thorough=False):
         dict(search="REGEVO", batches=[2, 2, 2, 1, 2, 2]),
         # option objects reused by an earlier search with another seed (default CBO otherwise)
         dict(objs=True, inproc="history"),
-        dict(seed=0, design="sobol"),
+        dict(seed=0, design="sobol", inproc="history", pre="all"),
+        # categoricals whose choices have different types (strings included): fitted forest / GP + non-random design
+        dict(space="hetero", n_jobs=-1),
+        # a long history (restart from a checkpoint of WARM evaluations), then a few asks
+        dict(warm=WARM, batches=[2, 2, 1]),
+        # (n_jobs=-1 above: as many workers as the process sees - the second interpreter sees 3 CPUs); a transfer table that lacks
+        # several hyperparameters; a sampling acquisition function under L-BFGS (GP's auto)
+        dict(space="small", transfer="gmm-partial", batches=[2, 2, 2]),
+        dict(sm="GP", acq="MES", mps="cl_min", n_points=48, batches=[2, 2, 1]),
         dict(space="small", seed=0, acq="gp_hedged", mps="qUCBd"),
         dict(search="RS", space="small", seed=0, mode="search"),
         dict(search="REGEVO", space="small", seed=0, cond=True),
@@ -132,13 +178,14 @@ def spine(thorough=False):
         # update_prior (KDE sampling, optimum on two bounds) and the transfer-learning route (columns of one kind)
         dict(space="floats", update_prior=True, batches=[2, 2, 2, 2, 2]),
         dict(space="floats", transfer="gmm"),
-        dict(sm="RF", acq="MESd", mps="qUCB", design="lhs", batches=[3, 1, 3, 1]),
+        dict(sm="RF", acq="MESd", mps="qUCB", design="lhs", batches=[3, 1, 3, 1], inproc="history", pre="all"),
         dict(sm="RF", acq="EI", mps="cl_mean", nobj=2, moo="Linear", seed=2 ** 31 - 1),
-        dict(sm="GP", acq="UCB", mps="cl_min", design="halton"),
-        dict(sm="GP", acq="gp_hedge", mps="cl_mean", cond=True, batches=[3, 1, 3, 1]),
-        dict(sm="TB", acq="PId", mps="boltzmann", design="grid", mode="search", fail=True, batches=[4, 3, 2]),
-        dict(acq="EId", mps="topk", design="hammersly", nobj=2, moo="PBI", cond=True, batches=[2, 2, 1, 1, 1, 3]),
+        dict(sm="GP", acq="UCB", mps="cl_min", design="halton", inproc="history"),
+        dict(sm="GP", acq="gp_hedge", mps="cl_mean", cond=True, batches=[3, 1, 3, 1], space="hetero"),
+        dict(sm="TB", acq="PId", mps="boltzmann", design="grid", mode="search", fail=True, batches=[4, 3, 2], inproc="history"),
+        dict(acq="EId", mps="topk", design="hammersly", nobj=2, moo="PBI", cond=True, batches=[2, 2, 1, 1, 1, 3], inproc="history"),
         dict(search="EDS", design="halton", batches=[4, 3, 2]),
+        dict(search="EDS", design="lhs", batches=[4, 3, 2], inproc="history", pre="all", space="hetero"),
     ]
     T = [
         dict(),
@@ -167,7 +214,7 @@ def spine(thorough=False):
     ]
     S = list(Q)
     if thorough:
-        S += T + stress_set()
+        S += T + stress_set() + long_history_set(very_long=True)[-1:]
         for search in ("CBO", "RS", "REGEVO", "EDS"):
             for sd in UNUSUAL_SEEDS:
                 S.append(dict(search=search, seed=sd))
@@ -196,6 +243,64 @@ def stress_set():
         dict(seed=0), dict(seed=0, search="RS"), dict(seed=0, search="REGEVO"), dict(seed=0, space="small", search="REGEVO"),
     ]
     S += update_next_set() + same_problem_set() + reused_objects_set() + update_prior_set() + transfer_set()
+    S += hetero_set() + history_set() + long_history_set() + cpu_set() + acq_optimizer_set()
+    return S
+
+
+def hetero_set():
+    """categorical hyperparameters whose choices have DIFFERENT TYPES (strings, ints, floats in one list): every encoder
+    route - label encoding for the forests / boosting, the normalised pipeline for GP and the non-random designs,
+    ConfigSpace sampling with a condition on such a categorical, mutation in RegularizedEvolution"""
+    return [
+        dict(space="hetero"),
+        dict(space="hetero", sm="RF", acq="EI", mps="qUCB", design="lhs"),
+        dict(space="hetero", sm="GP", acq="UCB", mps="cl_min", design="grid", cond=True, n_points=48, batches=[2, 2, 2, 1]),
+        dict(space="hetero", sm="GBRT", acq="UCB", design="sobol"),
+        dict(space="hetero", cond=True, nobj=2, mps="boltzmann", mode="search", batches=[4, 3, 2]),
+        dict(space="hetero", search="EDS", design="halton"),
+        dict(space="hetero", search="EDS", design="grid", cond=True),
+        dict(space="hetero", search="RS", cond=True, mode="search"),
+        dict(space="hetero", search="REGEVO", cond=True, batches=[2, 2, 2, 1, 2, 2]),
+        dict(space="hetero", update_prior=True, batches=[2, 2, 2, 2, 2]),
+    ]
+
+
+def history_set():
+    """what a seeded search proposes must not depend on which searches (other seeds, the same seed, other classes, other
+    initial designs) ran EARLIER in the same interpreter: every initial design / sampler-backed component, compared with
+    the same search alone in a fresh interpreter"""
+    S = []
+    for i, dsg in enumerate(DESIGN):
+        S.append(dict(design=dsg, inproc="history", pre="all", cond=bool(i % 2), batches=[2, 2, 2, 1]))
+        S.append(dict(search="EDS", design=dsg, inproc="history", pre="all", batches=[4, 3, 2], space=["mixed", "hetero", "floats"][i % 3]))
+    S += [
+        dict(search="RS", inproc="history", pre="all", cond=True),
+        dict(search="REGEVO", inproc="history", pre="all", batches=[2, 2, 2, 2, 2]),
+        dict(sm="RF", acq="EI", mps="qUCB", design="lhs", inproc="history", pre="all", n_init=6, batches=[3, 3, 2]),
+        dict(sm="GP", acq="gp_hedge", mps="cl_mean", design="sobol", inproc="history", pre="all", n_points=48, batches=[2, 2, 2, 1]),
+        dict(design="lhs", inproc="history", pre="all", mode="search", nobj=2, batches=[4, 3, 2]),
+        dict(space="small", design="grid", inproc="history", pre="all"),
+        dict(update_prior=True, space="floats", inproc="history", pre="all", batches=[2, 2, 2, 2]),
+        dict(transfer="gmm", inproc="history", pre="all"),
+    ]
+    return S
+
+
+def long_history_set(very_long=False):
+    """restart from the checkpoint of a long campaign (CBO.fit_surrogate): more told observations than any internal
+    size threshold (subsampling in the objective scaler, binning, ...), then a few asks"""
+    S = [
+        dict(warm=WARM, batches=[2, 2, 1]),
+        dict(warm=WARM, sm="RF", acq="EI", mps="qUCB", batches=[3, 1, 2]),
+        dict(warm=WARM, mode="search", nobj=2, batches=[2, 2]),
+        dict(warm=WARM, sm="GBRT", acq="UCB", scaler="quantile-uniform", batches=[2, 1, 1]),
+        dict(warm=WARM, sm="TB", scaler="minmax", cond=True, fail=True, batches=[2, 2, 1]),
+        dict(warm=WARM, space="hetero", sm="HGBRT", acq="EI", batches=[2, 1, 1]),
+        dict(warm=WARM, space="floats", update_prior=True, scaler="log", batches=[2, 2]),
+    ]
+    if very_long:
+        # (small forests keep the refits on 12 000 rows cheap; one family only, so that the shrunk fingerprint is stable)
+        S += [dict(warm=WARM_LONG, sm_kwargs={"n_estimators": 20}, batches=[2])]
     return S
 
 
@@ -221,9 +326,39 @@ def update_prior_set():
     ]
 
 
-def transfer_set():
-    """CBO.fit_generative_model(df) before the search; df has several columns of one kind"""
+def cpu_set():
+    """n_jobs=-1 ("as many workers as the process sees"): the second interpreter of every pair may only use 3 CPUs"""
     return [
+        dict(n_jobs=-1),
+        dict(n_jobs=-1, sm="RF", acq="EI", mps="qUCB", design="sobol"),
+        dict(n_jobs=-1, cond=True, nobj=2, mode="search", batches=[4, 3, 2]),
+        dict(n_jobs=-1, space="floats", update_prior=True, batches=[2, 2, 2, 2]),
+        dict(n_jobs=-1, space="small", sm="GBRT", acq="UCB"),
+        dict(n_jobs=-1, space="hetero", mps="boltzmann", design="lhs"),
+        dict(n_jobs=2, sm="RF", acq="EI"),
+    ]
+
+
+def acq_optimizer_set(acqs=("MES", "MESd")):
+    """the sampling acquisition functions under every acquisition optimizer (sampling, L-BFGS explicitly and as GP's `auto`)"""
+    S = []
+    for a in acqs:
+        S.append(dict(acq=a, acq_opt="sampling", batches=[2, 2, 1]))
+        S.append(dict(acq=a, acq_opt="lbfgs", batches=[2, 2, 1]))
+        if not a.endswith("d"):
+            S.append(dict(acq=a, sm="GP", mps="cl_min", n_points=48, batches=[2, 2, 1]))
+            S.append(dict(acq=a, sm="GP", mps="qUCB", cond=True, nobj=2, n_points=48, batches=[2, 2, 1]))
+    return S
+
+
+def transfer_set():
+    """CBO.fit_generative_model(df) before the search; df has several columns of one kind (gmm) / lacks two or more
+    hyperparameters of the space (gmm-partial)"""
+    return [
+        dict(space="floats", transfer="gmm-partial"),
+        dict(space="small", transfer="gmm-partial"),
+        dict(transfer="gmm-partial", mps="qUCB"),
+        dict(space="hetero", transfer="gmm-partial", sm="RF", acq="EI"),
         dict(space="floats", transfer="gmm"),
         dict(space="floats", transfer="gmm", mode="search", sm="RF", acq="EI", batches=[4, 3, 3]),
         dict(transfer="gmm"),
@@ -280,8 +415,10 @@ def random_cfg(rng, allow_ga=False):
         c["nobj"] = rng.choice([1, 1, 2])
         if c["nobj"] == 2:
             c["moo"] = rng.choice(MOO)
+        if rng.random() < 0.12:
+            c["transfer"] = rng.choice(["gmm", "gmm-partial"])
         if rng.random() < 0.1:
-            c["transfer"] = "gmm"
+            c["n_jobs"] = rng.choice([-1, -1, 2])
         if rng.random() < 0.1:
             c["update_prior"] = True
         if rng.random() < 0.1:
@@ -301,13 +438,23 @@ def random_cfg(rng, allow_ga=False):
     if c.get("nobj") == 2:
         c["fail"] = False  # failures before the first success in MOO are C04/C06's concern
     c["seed"] = rng.choice([1, 7, 42, 2024, 0, 0, 2 ** 31 - 1, 2 ** 32 - 1])
-    c["space"] = rng.choice(["small", "small", "small", "floats", "floats"] + ["mixed"] * 5)
+    c["space"] = rng.choice(["small", "small", "small", "floats", "floats", "hetero", "hetero", "hetero"] + ["mixed"] * 5)
     if c["space"] == "floats":
         c["cond"] = False
     if rng.random() < 0.15:
         c["objs"] = True
         c["inproc"] = rng.choice(["history", "history", "seq", "interleaved"])
+    elif rng.random() < 0.15:
+        c["inproc"] = "history"
+        c["pre"] = "all"
+    if c.get("search", "CBO") == "CBO":
+        if rng.random() < 0.2:
+            c["scaler"] = rng.choice(SCALER)
+        if c["space"] != "small" and c["sm"] not in ("GP", "DUMMY") and c.get("transfer", "none") == "none" and rng.random() < 0.12:
+            c["warm"] = WARM
     c["batches"] = list(rng.choice(SMALL_SCRIPTS if c["space"] == "small" else SCRIPTS))
+    if c.get("warm"):
+        c["batches"] = c["batches"][:3]
     if c["space"] == "small" and c.get("search") == "EDS":
         c["n_points"] = 14
     if c.get("search") == "REGEVO" and c["space"] != "small":
@@ -319,10 +466,23 @@ def configs_for_site(site):
     """configurations that reach a site: the product of its conditions' values (first 6), flat and conditional"""
     if site.kind == "shared-state":
         return [full(c) for c in same_problem_set()]
+    if site.kind == "cpu-count":
+        return [full(c) for c in cpu_set()]
+    if site.kind in rng_scan.CACHE_KINDS:
+        # process-level mutable state: what matters is which searches ran earlier / run side by side in the interpreter
+        hs = history_set()
+        key = Path(site.file).stem.lower()
+        hs.sort(key=lambda c: 0 if key and key in str(c.get("design", "")).lower() + str(c.get("search", "")).lower() else 1)
+        return [full(c) for c in hs + same_problem_set()]
     if "update_next" in site.func:
         return [full(c) for c in update_next_set()]
     if site.file.endswith("gmm.py") or "model_sdv" in site.text:
         return [full(c) for c in transfer_set()]
+    acq_vals = [v for k, vals in site.conds if k == "acq" for v in vals]
+    if acq_vals:
+        # a site that only matters for some acquisition functions: those functions under every acquisition optimizer
+        return [full(c) for c in sorted(acq_optimizer_set(acq_vals), key=lambda c: 0 if c.get("sm") == "GP" else 1)] + [
+            full(dict(acq=a, cond=True)) for a in acq_vals] + [full(dict(acq=a, space="small")) for a in acq_vals]
     if any(k == "update_prior" for k, _ in site.conds):
         return [full(c) for c in update_prior_set()]
     out = [{}]
@@ -361,7 +521,8 @@ class Runner:
         env = dict(os.environ, PYTHONHASHSEED=str(hashseed), VERIF_REPO=str(common.REPO), OMP_NUM_THREADS="1",
                    OPENBLAS_NUM_THREADS="1", MKL_NUM_THREADS="1", PYTHONWARNINGS="ignore", PYTHONDONTWRITEBYTECODE="1")
         env.pop("PYTHONPATH", None)
-        envarg = {"perturb": perturb, "log_dir": str(d / f"logs_{tag}"), "cwd": str(d / f"cwd_{tag}")}
+        envarg = {"perturb": perturb % 1000, "log_dir": str(d / f"logs_{tag}"), "cwd": str(d / f"cwd_{tag}"),
+                  "cpus": 3 if perturb >= 1000 else None}
         t0 = time.time()
         try:
             p = subprocess.run([sys.executable, "-W", "ignore", CHILD, json.dumps(cfg), json.dumps(envarg)],
@@ -384,9 +545,10 @@ class Runner:
         return self.pool.submit(self._child, cfg, hashseed, perturb, tag)
 
     # the two members of a pair; `vary` = which hidden inputs differ between them (log_dir / cwd always differ)
-    def pair(self, cfg, vary=("hash", "globals")):
+    # (perturb >= 1000 additionally restricts the interpreter to 3 CPUs)
+    def pair(self, cfg, vary=("hash", "globals", "cpus")):
         a = self.submit(cfg, 1, 3, "a")
-        b = self.submit(cfg, 2 if "hash" in vary else 1, 17 if "globals" in vary else 3, "b")
+        b = self.submit(cfg, 2 if "hash" in vary else 1, (17 if "globals" in vary else 3) + (1000 if "cpus" in vary else 0), "b")
         return a, b
 
 
@@ -405,6 +567,33 @@ def first_diff(ra, rb):
             "error_a": ra.get("error"), "error_b": rb.get("error")}
 
 
+def global_draws(*results):
+    """draws from / writes to a process-global generator observed (with call site) while the search calls ran"""
+    out, seen = [], set()
+    for r in results:
+        for d in (r or {}).get("global_draws", []) or []:
+            k = (d["stream"], d["by"], d["via"])
+            if k not in seen:
+                seen.add(k)
+                out.append(d)
+    return out
+
+
+def taint_sites(*results):
+    """the observed global draws as pseudo rows (file, func) for the fingerprint: the deephyper function on whose behalf
+    the draw was made > the function that made it (third-party code included)"""
+    rows = []
+    for d in global_draws(*results):
+        via, by = d.get("via") or "", d["by"]
+        if via:
+            f, fn = via.split(":", 1)
+            rows.append({"file": f, "func": fn if by == via else f"{fn}>{by}", "stream": d["stream"]})
+        else:
+            f, fn = by.split(":", 1)
+            rows.append({"file": f, "func": fn, "stream": d["stream"]})
+    return rows
+
+
 # --------------------------------------------------------------------------- hand-model request
 
 
@@ -412,12 +601,17 @@ def model_request(cfg):
     """the configuration as `Opts` + `Op` script of Model/Streams.lean (environment flags from the script)"""
     strat = {"cl_min": "cl", "cl_mean": "cl", "cl_max": "cl", "topk": "topk", "boltzmann": "boltzmann", "qUCB": "qlcb", "qUCBd": "qlcb"}
     search = {"CBO": "CBO", "EDS": "CBO", "RS": "RS", "REGEVO": "REGEVO"}[cfg["search"]]
-    opts = dict(search=search, strategy=strat[cfg["mps"]], ndims=4 if cfg["space"] == "floats" else (3 + (1 if cfg["cond"] else 0)) if cfg["space"] == "small" else 5 + (2 if cfg["cond"] else 0),
+    ndims = {"floats": 4, "small": 3 + (1 if cfg["cond"] else 0), "hetero": 4 + (1 if cfg["cond"] else 0)}.get(cfg["space"], 5 + (2 if cfg["cond"] else 0))
+    opts = dict(search=search, strategy=strat[cfg["mps"]], ndims=ndims,
                 estimatorByName=cfg["sm"] in ("GP", "DUMMY"), cfgSpace=bool(cfg["cond"]) and cfg["space"] != "floats", design=cfg["design"] != "random",
                 mes=cfg["acq"] in ("MES", "MESd"), hedge=cfg["acq"].startswith("gp_hedge"), moo=cfg["nobj"] == 2,
                 pymoo=cfg["acq_opt"] in ("ga", "mixedga"))
     ops, told, evals = [], 0, 0
-    n_init = N_INIT if cfg["search"] != "EDS" else 10 ** 6
+    n_init = cfg.get("n_init", N_INIT) if cfg["search"] != "EDS" else 10 ** 6
+    if cfg["warm"] and cfg["search"] == "CBO":
+        # CBO.fit_surrogate(df): the whole checkpoint is told at once (one fitting step when a surrogate exists)
+        told = int(cfg["warm"])
+        ops.append(["tell", cfg["sm"] != "DUMMY"])
     pop = 5
     fail_at, again = set(cfg["fail_at"]), set(cfg["again"]) if cfg["mode"] == "asktell" else set()
     for k, n in enumerate(cfg["batches"]):
@@ -457,7 +651,7 @@ def inproc_bad(res, ref):
 def diagnose_and_shrink(ck, R, cfg, mode="pair"):
     """which hidden input, and the smallest configuration (towards DEFAULTS) that still differs.
     mode "pair": two fresh interpreters differ;  mode "twins": the in-process searches of ONE interpreter differ."""
-    def differs(c, vary=("hash", "globals")):
+    def differs(c, vary=("hash", "globals", "cpus")):
         if mode == "twins":
             f = R.submit(c, 1, 3, "a")
             return f, (R.submit(dict(c, inproc="none"), 1, 3, "r") if c["inproc"] != "none" else f)
@@ -507,9 +701,14 @@ def diagnose_and_shrink(ck, R, cfg, mode="pair"):
         other = next((t for t in ra.get("twins", []) if t != ra["props"]), None)
         return cur, ["sharedState"], ra, (dict(ra, props=other) if other is not None else rr)
     # 3. which hidden input
-    kinds = {"osEntropy": (), "hashSeed": ("hash",), "globalRng": ("globals",)}
-    res = settle([differs(cur, v) for v in kinds.values()])
+    kinds = {"osEntropy": (), "hashSeed": ("hash",), "globalRng": ("globals",), "cpuCount": ("cpus",)}
+    pairs = [differs(cur, v) for v in kinds.values()]
+    # an unseeded generator can produce the same few values twice by chance: three more interpreters with identical inputs
+    extra = [R.submit(cur, 1, 3, f"e{j}") for j in range(3)]
+    res = settle(pairs)
     hidden = sorted(k for k, bad in zip(kinds, res) if bad)
+    if len({observable(f.result()) for f in extra} | {observable(pairs[0][0].result())}) > 1 and "osEntropy" not in hidden:
+        hidden.append("osEntropy")
     if "osEntropy" in hidden:
         # differs although hash seed and global generators are equal in both processes: nothing controllable explains it
         hidden = ["osEntropy"]
@@ -643,107 +842,167 @@ def run(ck):
 
             cdir = common.VERIF / "corpus" / "C07"
             for f in sorted(cdir.glob("*.json")) if cdir.is_dir() else []:
-                add(json.loads(f.read_text())["case"]["cfg"], "corpus")
+                entry = json.loads(f.read_text())
+                if entry.get("tier") == "thorough" and not ck.thorough:
+                    continue  # e.g. histories of more than 10 000 observations: minutes of CPU
+                add(entry["case"]["cfg"], "corpus")
             for s in offending:
-                for c in configs_for_site(s):
-                    add(c, "reaches-offending-site")
-            if offending:
-                # a flagged site somewhere in the stack: also drive the stack's non-trivial paths
-                for c in stress_set():
+                # quick: the first configurations aimed at the site (the sets are ordered most specific first)
+                for c in configs_for_site(s)[:ck.pick(10, 10 ** 6)]:
                     add(c, "reaches-offending-site")
             for c in spine(ck.thorough):
                 add(c, "spine")
-            for _ in range(ck.pick(2, 190)):
+            for _ in range(ck.pick(2, 170)):
                 add(random_cfg(ck.rng, allow_ga=ck.thorough), "random")
             if ck.thorough:
                 for ao in ("ga", "mixedga"):
                     add(dict(acq_opt=ao, n_points=32, batches=[2, 2, 1, 1]), "spine")
                     add(dict(acq_opt=ao, acq="MES", n_points=32, batches=[2, 2, 1, 1], cond=(ao == "mixedga")), "spine")
+            later = []
+            if offending:
+                # a flagged site somewhere in the stack: the stack's non-trivial paths, run only if the first phase finds nothing
+                first, todo = todo, later
+                for s in offending:
+                    for c in configs_for_site(s):
+                        add(c, "reaches-offending-site")
+                for c in stress_set():
+                    add(c, "reaches-offending-site")
+                todo = first
 
-            futs, differing, seeds_same = [], {}, []
-            for i, (c, origin) in enumerate(todo):
-                fa, fb = R.pair(c)
-                c2 = dict(c, seed=other_seed(c["seed"]))
-                with_other_seed = ck.thorough or i % 4 == 0 or c["search"] == "EDS" or origin == "corpus"
-                fr = R.submit(dict(c, inproc="none"), 1, 3, "r") if c["inproc"] != "none" else None
-                futs.append((c, origin, fa, fb, R.submit(c2, 1, 3, "c") if with_other_seed else None, fr))
-            preds = drv.ask_all([{"op": "predict", "cfg": lean_cfg(c), "rounds": len(c["batches"])} for c, _ in todo])
-            models = drv.ask_all([model_request(c) for c, _ in todo])
+            differing, seeds_same = {}, []
+            open_fps = {e["fingerprint"] for e in ck.known.get("open", []) if e.get("property") == "C07"}
+            pending_mm = {}  # L2 reports of differing cases, emitted once the group's fingerprint is known not to be an open finding
+            provisional = {}  # group key -> fingerprints registered at once (unshrunk), replaced by the analysed one
 
-            for (c, origin, fa, fb, fc, fr), pred, mod in zip(futs, preds, models):
-                ra, rb = fa.result(), fb.result()
-                rc = fc.result() if fc is not None else None
-                rr = fr.result() if fr is not None else None
-                case = {"cfg": case_cfg(c), "origin": origin}
-                ck.count("origin:" + origin)
-                for k in ("search", "sm", "acq", "mps", "design", "moo", "acq_opt", "transfer", "mode"):
-                    if c["search"] in ("CBO", "EDS") or k in ("search", "mode"):
-                        ck.count(f"{k}={c[k]}")
-                ck.count(f"space={c['space']}")
-                ck.count(f"inproc={c['inproc']}")
-                ck.count("route:" + ("ignored-failure" if c["fail_at"] and c["ff"] == "ignore" else "") + ("ask-again" if c["again"] else "")
-                         if (c["again"] or (c["fail_at"] and c["ff"] == "ignore")) else "route:plain")
-                ck.count("seed=" + (str(c["seed"]) if c["seed"] in UNUSUAL_SEEDS else "other"))
-                ck.count(f"cond={c['cond']}")
-                ck.count(f"nobj={c['nobj']}")
-                ck.count(f"fail={c['fail']}")
-                if ra["status"] == "unavailable" and rb["status"] == "unavailable":
-                    # the constructor refuses this configuration on this tree: not a statement about reproducibility
-                    ck.count("status:unavailable")
-                    ck.count("unavailable:" + ra["error"].split(":")[0])
-                    ck.case(case, nontrivial=False, validated=False)
-                    continue
-                ck.count("status:" + ra["status"])
-                if ra["status"] == "raised":
-                    ck.count("raised:" + ra["error"][:48])
-                    ex = ck.extra_cov.setdefault("raised_examples", {})
-                    if len(ex.setdefault(ra["error"][:48], [])) < 3:
-                        ex[ra["error"][:48]].append(nondefault(c))
-                ck.case(case, nontrivial=len(ra["props"]) >= 2)
-                ck.count("proposals", len(ra["props"]))
-                same = observable(ra) == observable(rb)
-                # ---- L2: table / model predictions vs. what the two processes did
-                if not mod["well_init"] or not mod["same_outputs"] or mod["proposals"] != mod["asks"]:
-                    ck.mismatch(case, {"hand model is not self-consistent for this configuration": mod})
-                if not same and not pred["hidden"]:
-                    ck.mismatch(case, "the pair differs but the generated table has no hidden-input site reachable by this configuration "
-                                      "(scanner or reachability map misses a site)")
-                if not same and mod["same_outputs"]:
-                    ck.mismatch(case, "hand model (seed threading) says the proposals are a function of the seed; the implementation disagrees")
-                np_pred = any(s in pred["streams"] for s in ("numpyGlobal", "scipyGlobal"))
-                for r in (ra, rb):
-                    if r.get("np_global_touched") and not np_pred and not pred["global_write"]:
-                        ck.mismatch(case, "the search consumed / reseeded the process-global NumPy generator but the table has no live "
-                                          "site drawing from it for this configuration")
-                        break
-                    if r.get("py_global_touched") and "pythonGlobal" not in pred["streams"]:
-                        ck.mismatch(case, "the search consumed the process-global `random` generator but the table has no such live site")
-                        break
-                if ra.get("np_global_touched"):
-                    ck.count("observed:np-global-touched")
-                # ---- L3: the property
-                twin_fail = twins_bad(ra) or twins_bad(rb) or (
-                    rr is not None and ra["status"] == "ok" and rr["status"] == "ok" and observable(ra)[1] != observable(rr)[1])
-                if twin_fail and same:
-                    # searches built from ONE problem object in one process disagree with each other / with the
-                    # same search run alone in a fresh interpreter
-                    ck.count("same-problem-searches-differ")
-                    if mod["same_outputs"]:
-                        ck.mismatch(case, "hand model: every search owns its generators (private copy of the problem); the implementation's "
-                                          "searches built from one problem object influence each other")
-                    key = ("twins",) + tuple(sorted(h["id"] for h in pred["hidden"]))
-                    differing.setdefault(key, []).append((c, case, ra, rb))
-                elif not same:
-                    ck.count("pair-differs")
-                    key = tuple(sorted(h["id"] for h in pred["hidden"])) or ("unknown",)
-                    differing.setdefault(key, []).append((c, case, ra, rb))
-                elif rc is not None and ra["status"] == "ok" and ra["props"] and observable(ra)[1] == observable(rc)[1]:
-                    ck.count("seeds-same")
-                    seeds_same.append((c, case, ra))
-                else:
-                    ck.count("pair-identical")
-                    if rc is not None:
-                        ck.count("other-seed-differs")
+            def register_now(key, clause, what, c, case, ra, rb, pred):
+                """a failing input is never lost: it is registered (unshrunk, undiagnosed) the moment it is seen, so that a run that
+                is cut short by the wall-clock watchdog on a slow machine still reports it with a replay; the diagnosed and shrunk
+                failure replaces it"""
+                fp = fingerprint(clause, pred["hidden"] or taint_sites(ra, rb), c) + "|unshrunk"
+                provisional.setdefault(key, set()).add(fp)
+                ck.fail(fp, what, {"cfg": case["cfg"], "provisional": "not yet diagnosed / shrunk"}, {"first_difference": first_diff(ra, rb)})
+
+            def launch_and_judge(todo):
+                futs = []
+                for i, (c, origin) in enumerate(todo):
+                    fa, fb = R.pair(c)
+                    c2 = dict(c, seed=other_seed(c["seed"]))
+                    with_other_seed = ck.thorough or i % 4 == 0 or c["search"] == "EDS" or origin == "corpus"
+                    fr = R.submit(dict(c, inproc="none"), 1, 3, "r") if c["inproc"] != "none" else None
+                    futs.append((c, origin, fa, fb, R.submit(c2, 1, 3, "c") if with_other_seed else None, fr))
+                preds = drv.ask_all([{"op": "predict", "cfg": lean_cfg(c), "rounds": len(c["batches"])} for c, _ in todo])
+                models = drv.ask_all([model_request(c) for c, _ in todo])
+
+                for (c, origin, fa, fb, fc, fr), pred, mod in zip(futs, preds, models):
+                    pred = with_known_rows(pred, c)
+                    mm = []
+                    ra, rb = fa.result(), fb.result()
+                    rc = fc.result() if fc is not None else None
+                    rr = fr.result() if fr is not None else None
+                    case = {"cfg": case_cfg(c), "origin": origin}
+                    ck.count("origin:" + origin)
+                    for k in ("search", "sm", "acq", "mps", "design", "moo", "acq_opt", "transfer", "mode"):
+                        if c["search"] in ("CBO", "EDS") or k in ("search", "mode"):
+                            ck.count(f"{k}={c[k]}")
+                    ck.count(f"space={c['space']}")
+                    ck.count("history=" + ("none" if not c["warm"] else "long" if c["warm"] <= WARM else "very-long"))
+                    if c["search"] in ("CBO", "EDS"):
+                        ck.count(f"scaler={c['scaler']}")
+                    if c["inproc"] == "history":
+                        ck.count(f"earlier-searches={c['pre']}:{c['search']}:{c['design'] if c['search'] in ('CBO', 'EDS') else '-'}")
+                    ck.count(f"inproc={c['inproc']}")
+                    ck.count("route:" + ("ignored-failure" if c["fail_at"] and c["ff"] == "ignore" else "") + ("ask-again" if c["again"] else "")
+                             if (c["again"] or (c["fail_at"] and c["ff"] == "ignore")) else "route:plain")
+                    ck.count("seed=" + (str(c["seed"]) if c["seed"] in UNUSUAL_SEEDS else "other"))
+                    ck.count(f"cond={c['cond']}")
+                    ck.count(f"nobj={c['nobj']}")
+                    ck.count(f"fail={c['fail']}")
+                    if ra["status"] == "unavailable" and rb["status"] == "unavailable":
+                        # the constructor refuses this configuration on this tree: not a statement about reproducibility
+                        ck.count("status:unavailable")
+                        ck.count("unavailable:" + ra["error"].split(":")[0])
+                        ck.case(case, nontrivial=False, validated=False)
+                        continue
+                    ck.count("status:" + ra["status"])
+                    if ra["status"] == "raised":
+                        ck.count("raised:" + ra["error"][:48])
+                        ex = ck.extra_cov.setdefault("raised_examples", {})
+                        if len(ex.setdefault(ra["error"][:48], [])) < 3:
+                            ex[ra["error"][:48]].append(nondefault(c))
+                    ck.case(case, nontrivial=len(ra["props"]) >= 2)
+                    ck.count("proposals", len(ra["props"]))
+                    same = observable(ra) == observable(rb)
+                    # ---- L2: table / model predictions vs. what the two processes did
+                    if not mod["well_init"] or not mod["same_outputs"] or not mod.get("history_independent", True) or mod["proposals"] != mod["asks"]:
+                        ck.mismatch(case, {"hand model is not self-consistent for this configuration": mod})
+                    if not same and not pred["hidden"]:
+                        mm.append((case, "the pair differs but the generated table has no hidden-input site reachable by this configuration "
+                                         "(scanner or reachability map misses a site)"))
+                    if not same and mod["same_outputs"]:
+                        mm.append((case, "hand model (seed threading) says the proposals are a function of the seed; the implementation disagrees"))
+                    np_pred = any(s in pred["streams"] for s in ("numpyGlobal", "scipyGlobal"))
+                    gd = global_draws(ra, rb, rr)
+                    brief = [{k: d[k] for k in ("stream", "method", "by", "via", "count")} for d in gd][:6]
+                    for r in (ra, rb, rr):
+                        if r is None:
+                            continue
+                        np_seen = r.get("np_global_touched") or any(d["stream"] == "numpyGlobal" for d in r.get("global_draws", []))
+                        py_seen = r.get("py_global_touched") or any(d["stream"] == "pythonGlobal" for d in r.get("global_draws", []))
+                        if np_seen and not np_pred and not pred["global_write"]:
+                            mm.append((case, {"what": "the search consumed / reseeded the process-global NumPy generator but the table has no live "
+                                                       "site drawing from it for this configuration (a seeded search draws from its own generators only; "
+                                                       "third-party code called without a random_state is invisible to the scan)", "observed_draws": brief}))
+                            break
+                        if py_seen and "pythonGlobal" not in pred["streams"]:
+                            mm.append((case, {"what": "the search consumed the process-global `random` generator but the table has no such live site",
+                                              "observed_draws": brief}))
+                            break
+                    if ra.get("np_global_touched") or gd:
+                        ck.count("observed:global-generator-touched")
+                    for d in gd:
+                        ck.count(f"observed-draw:{d['stream']}:{d['by']}")
+                    # ---- L3: the property
+                    twin_fail = twins_bad(ra) or twins_bad(rb) or (
+                        rr is not None and ra["status"] == "ok" and rr["status"] == "ok" and observable(ra)[1] != observable(rr)[1])
+                    if twin_fail and same:
+                        # searches built from ONE problem object in one process disagree with each other / with the
+                        # same search run alone in a fresh interpreter
+                        ck.count("same-problem-searches-differ")
+                        if mod["same_outputs"] and mod.get("history_independent", True):
+                            mm.append((case, "hand model: every search owns its generators and nothing else (private copy of the problem, no process-level "
+                                             "state); the implementation's searches of one interpreter influence each other"))
+                        key = ("twins",) + tuple(sorted(h["id"] for h in pred["hidden"]))
+                        differing.setdefault(key, []).append((c, case, ra, rb))
+                        other = next((dict(ra, props=t) for r in (ra, rb) for t in r.get("twins", []) if t != r["props"]), rr or rb)
+                        register_now(key, "earlier-search-changes-proposals" if c["inproc"] == "history" else "same-problem-searches-differ",
+                                     "searches of one interpreter influence each other (in-process scenario vs. the same search alone)", c, case, ra, other, pred)
+                        pending_mm.setdefault(key, []).extend(mm)
+                        mm = []
+                    elif not same:
+                        ck.count("pair-differs")
+                        key = tuple(sorted(h["id"] for h in pred["hidden"])) or (("taint",) + tuple(sorted(d["by"] for d in gd)) if gd else ("unknown",))
+                        differing.setdefault(key, []).append((c, case, ra, rb))
+                        register_now(key, "differs-across-processes", "same seed, same options, two interpreters: proposal sequences differ", c, case, ra, rb, pred)
+                        pending_mm.setdefault(key, []).extend(mm)
+                        mm = []
+                    elif rc is not None and ra["status"] == "ok" and ra["props"] and observable(ra)[1] == observable(rc)[1]:
+                        ck.count("seeds-same")
+                        seeds_same.append((c, case, ra))
+                    else:
+                        ck.count("pair-identical")
+                        if rc is not None:
+                            ck.count("other-seed-differs")
+                    for cs, detail in mm:  # cases whose pair is identical: reported at once
+                        ck.mismatch(cs, detail)
+
+
+            launch_and_judge(todo)
+            if later and not differing and not ck.failures:
+                # L1 is broken (a flagged site somewhere in the stack) and neither the spine nor the configurations aimed at the
+                # site produced a failing input: drive the stack's non-trivial paths (second phase, so that the red path stays
+                # short when the first phase already has the failing input)
+                ck.count("second-phase:stress-set")
+                launch_and_judge(later)
 
             # ---- failing configurations: one representative per set of table sites is diagnosed and shrunk
             def analyse(group):
@@ -755,15 +1014,24 @@ def run(ck):
                         for key, group in differing.items()}
                 for key, group in differing.items():
                     cur, hidden, sa, sb = jobs[key].result()
-                    spred = drv.ask({"op": "predict", "cfg": lean_cfg(cur), "rounds": len(cur["batches"])})
+                    for pfp in provisional.get(key, ()):  # replaced by the analysed failure below
+                        ck.failures[:] = [f for f in ck.failures if f["fingerprint"] != pfp]
+                        ck.hist.pop("L3_fail:" + pfp, None)
+                    spred = with_known_rows(drv.ask({"op": "predict", "cfg": lean_cfg(cur), "rounds": len(cur["batches"])}), cur)
                     clause = "depends-on-" + "+".join(hidden) if hidden else "differs-across-processes"
                     if key[0] == "twins":
                         clause = "earlier-search-changes-proposals" if cur["inproc"] == "history" else "same-problem-searches-differ"
-                    fp = fingerprint(clause, spred["hidden"], cur)
+                    fp = fingerprint(clause, spred["hidden"] or taint_sites(sa, sb), cur)
+                    if fp in open_fps:
+                        # an OPEN known finding of this tree: model / table are known not to describe these configurations
+                        ck.count("L2_reports_explained_by_known_finding", len(pending_mm.get(key, [])))
+                    else:
+                        for cs, detail in pending_mm.get(key, []):
+                            ck.mismatch(cs, detail)
                     shr = {"cfg": case_cfg(cur),
-                           "hidden_inputs": hidden, "table_sites": spred["hidden"],
+                           "hidden_inputs": hidden, "table_sites": spred["hidden"], "observed_global_draws": global_draws(sa, sb)[:6],
                            "also_failing": [g[1]["cfg"] for g in group][:8],
-                           "envs": {"a": {"PYTHONHASHSEED": 1, "perturb": 3}, "b": {"PYTHONHASHSEED": 2, "perturb": 17}}}
+                           "envs": {"a": {"PYTHONHASHSEED": 1, "perturb": 3, "cpus": "all"}, "b": {"PYTHONHASHSEED": 2, "perturb": 17, "cpus": 3}}}
                     for _ in group:
                         ck.fail(fp, ((f"seed {cur['seed']}: the search proposes another sequence when an earlier search with another seed was built "
                                       "from the same problem / option objects in the same process than when it runs alone")
@@ -821,10 +1089,10 @@ def search(ck):
             if observable(ra) != observable(rb):
                 cur, hidden, sa, sb = diagnose_and_shrink(ck, R, c)
                 with ck.driver() as drv:
-                    spred = drv.ask({"op": "predict", "cfg": lean_cfg(cur), "rounds": len(cur["batches"])})
+                    spred = with_known_rows(drv.ask({"op": "predict", "cfg": lean_cfg(cur), "rounds": len(cur["batches"])}), cur)
                 clause = "depends-on-" + "+".join(hidden) if hidden else "differs-across-processes"
-                ck.fail(fingerprint(clause, spred["hidden"], cur), "same seed, same options, two interpreters: proposal sequences differ",
-                        {"cfg": case_cfg(cur), "hidden_inputs": hidden, "table_sites": spred["hidden"]},
+                ck.fail(fingerprint(clause, spred["hidden"] or taint_sites(sa, sb), cur), "same seed, same options, two interpreters: proposal sequences differ",
+                        {"cfg": case_cfg(cur), "hidden_inputs": hidden, "table_sites": spred["hidden"], "observed_global_draws": global_draws(sa, sb)[:6]},
                         {"first_difference": first_diff(sa, sb)})
                 return
     finally:
@@ -837,9 +1105,11 @@ def replay(ck, case):
     try:
         fa, fb = R.pair(cfg)
         fc = R.submit(dict(cfg, seed=case.get("other_seed", other_seed(cfg["seed"]))), 1, 3, "c")
+        fr = R.submit(dict(cfg, inproc="none"), 1, 3, "r") if cfg["inproc"] != "none" else None
         ra, rb, rc = fa.result(), fb.result(), fc.result()
+        rr = fr.result() if fr is not None else None
         with ck.driver() as drv:
-            pred = drv.ask({"op": "predict", "cfg": lean_cfg(cfg), "rounds": len(cfg["batches"])})
+            pred = with_known_rows(drv.ask({"op": "predict", "cfg": lean_cfg(cfg), "rounds": len(cfg["batches"])}), cfg)
     finally:
         R.close()
     ck.case({"cfg": case["cfg"]}, nontrivial=len(ra["props"]) >= 2)
@@ -850,15 +1120,28 @@ def replay(ck, case):
     if ra["status"] == "unavailable":
         print("replay: configuration not available on this tree:", ra["error"])
         return
-    if same and (twins_bad(ra) or twins_bad(rb)):
-        bad = ra if twins_bad(ra) else rb
-        twin = next(t for t in bad["twins"] if t != bad["props"])
-        print("replay: searches built from one problem object differ:", json.dumps(first_diff(bad, dict(bad, props=twin))))
-        ck.fail(fingerprint("same-problem-searches-differ", pred["hidden"], cfg),
+    sites = pred["hidden"] or taint_sites(ra, rb)
+    if same and rr is not None and cfg["inproc"] == "history" and ra["status"] == "ok" and rr["status"] == "ok" and observable(ra)[1] != observable(rr)[1]:
+        print("replay: the search proposes another sequence after earlier searches ran in the interpreter than alone in a fresh one:",
+              json.dumps(first_diff(ra, rr)))
+        ck.fail(fingerprint("earlier-search-changes-proposals", sites, cfg),
+                "the search proposes another sequence when earlier searches ran in the same interpreter than when it runs alone", case, first_diff(ra, rr))
+    elif same and (twins_bad(ra) or twins_bad(rb) or (rr is not None and inproc_bad(ra, rr))):
+        bad = ra if twins_bad(ra) else rb if twins_bad(rb) else None
+        if bad is not None:
+            twin = next(t for t in bad["twins"] if t != bad["props"])
+            print("replay: searches built from one problem object differ:", json.dumps(first_diff(bad, dict(bad, props=twin))))
+        else:
+            print("replay: the in-process searches differ from the same search alone in a fresh interpreter:", json.dumps(first_diff(ra, rr)))
+        ck.fail(fingerprint("same-problem-searches-differ", sites, cfg),
                 "same seed, same options, searches built from one problem object in one process: proposal sequences differ", case)
     elif not same:
         hid = case.get("hidden_inputs") or []
         clause = "depends-on-" + "+".join(hid) if hid else "differs-across-processes"
-        ck.fail(fingerprint(clause, pred["hidden"], cfg), "same seed, same options, two interpreters: proposal sequences differ", case, first_diff(ra, rb))
+        gd = global_draws(ra, rb)
+        if gd:
+            print("replay: draws from a process-global generator during the search calls:",
+                  json.dumps([{k: d[k] for k in ("stream", "method", "by", "via", "count")} for d in gd][:6]))
+        ck.fail(fingerprint(clause, sites, cfg), "same seed, same options, two interpreters: proposal sequences differ", case, first_diff(ra, rb))
     elif ra["status"] == "ok" and ra["props"] and observable(ra)[1] == observable(rc)[1]:
         ck.fail(fingerprint_seeds_same(cfg), "two seeds give the same proposal sequence", case)
